@@ -965,7 +965,7 @@ class NodeFor:
         if lst.isObject():
             values = lst.value
             result = TRUE
-            for key, value in values.items():
+            for key, value in list(values.items()):
                 val = value
                 if self.what == "keys":
                     val = ValueString(key)
